@@ -74,6 +74,16 @@ func TestVerifC12Fp384(t *testing.T) {
 		if alias == kit.AliasXY || alias == kit.AliasAll {
 			yv, yc = xv, xc
 		}
+		// a quarter of the arithmetic cases: operands solved so that the RESULT is a drawn edge word,
+		// mostly in the gap [0, 2^384−p) where an unreduced alias r+p still fits the limbs
+		switch op {
+		case "Add", "Sub", "Mul", "Sqr", "Neg", "Inv":
+			if (alias == kit.AliasNone || alias == kit.AliasZX || alias == kit.AliasZY || op == "Sqr" || op == "Neg" || op == "Inv") && rapid.IntRange(0, 3).Draw(t, "targeted") == 0 {
+				if tx, ty, tc, ok := f.Targeted(t, op, R, "tg"); ok {
+					xv, yv, xc, yc = tx, ty, tc, tc
+				}
+			}
+		}
 		sel := rapid.IntRange(0, 1).Draw(t, "sel")
 		x0, y0, junk := c12From(new(big.Int).Abs(xv)), c12From(yv), c12From(jv)
 		drawn := alias
